@@ -65,6 +65,9 @@ func DrawContact(t *rapid.T, w *world.World, o GenOpts, envTZ string) M {
 	if len(o.Statuses) > 0 {
 		c["status"] = rapid.SampledFrom(o.Statuses).Draw(t, "status")
 	}
+	if rapid.IntRange(0, 4).Draw(t, "noid") == 0 {
+		delete(c, "id") // contacts that have not been saved yet have no id
+	}
 	if n := rapid.SampledFrom(contactNames).Draw(t, "name"); n != "" {
 		c["name"] = n
 	}
